@@ -402,6 +402,16 @@ def c03(res, tier, seed, replay):
             runs.append({"name": f"vam-upd-{m}-{s}",
                          "args": ["-mode", "rank", "-config", f"vamana-{m}", "-seed", seed * 100 + 30 + s,
                                   "-hist", 2 if tier == "quick" else 6, "-batches", 40, "-rank", 4]})
+        # every write batch starts on a cold cache (cache off) and storage reads are slow: the insert workers of a batch
+        # overlap in their read-throughs; insert-only small collections, so every answer must be exact
+        for k in range(2):
+            runs.append({"name": f"vam-coldpar-{s}-{k}",
+                         "args": ["-mode", "rank", "-insert-only", "-config", "vamana-euclidean", "-nids", 24, "-cache", "0", "-slowget-us", 1000,
+                                  "-maxbatch", 12, "-seed", seed * 100 + 35 + 50 * k + s, "-hist", 8 if tier == "quick" else 30, "-batches", 4, "-rank", 4]})
+        # learned binary quantiser under a graph index: warm answers against cold ones, key-level life cycle
+        runs.append({"name": f"vam-binlearn-{s}",
+                     "args": ["-mode", "cache", "-config", "vamana-binlearn", "-cache", "-1", "-seed", seed * 100 + 38 + s,
+                              "-hist", 2 if tier == "quick" else 6, "-batches", 12, "-rank", 3, "-panel-every", 0]})
         # index built with search size 25, queries with up to 75: 30 points (more than the build window, fewer than the
         # query window) and boundary-size id filters on 300 ids
         runs.append({"name": f"vam-win25-io-{s}",
